@@ -163,6 +163,9 @@ PipeFails1(r) ==
     \* a zoom filter that can select nothing (min > max, or a limit beyond level 31) may just as well be REPORTED as an invalid
     \* argument when the pipeline is built: for such programs a clean build error is accepted
     ELSE Fails("build", r.built = 1 \/ (Degenerate(t) /\ r.panic = 0)) \cup
+         \* the root cannot be built although each of its direct children can be built on its own: the root operation's failure
+         Fails("rel_build", r.built = 1 \/ (Degenerate(t) /\ r.panic = 0) \/ "kids_built" \notin DOMAIN r
+                            \/ \E k \in 1..Len(r.kids_built) : r.kids_built[k] = 0) \cup
          (IF r.built = 0 THEN {} ELSE
           Fails("declared", r.declared.tc = Decl(t, S)) \cup
           Fails("coverage", \A z \in 0..r.maxlevel : CovAt(r.cov, z) = CovOf(t, S, z)) \cup
@@ -180,7 +183,6 @@ PipeFails1(r) ==
           Fails("stream_sem", \A i \in 1..Len(r.streams) :
                    LET s == r.streams[i] IN
                    s.status = "ok" /\ SameBag(s.res, {x \in want : InBox(x, s.box)})) \cup
-          Fails("tilejson_of_operation", ~HasTj(r) \/ TjOk(r)) \cup
           Fails("rel_lookup", ~KidsOk(r) \/ RelLookupOk(r)) \cup
           Fails("rel_stream", ~KidsOk(r) \/ RelStreamOk(r)) \cup
           Fails("stream", \A i \in 1..Len(r.streams) :
@@ -191,7 +193,11 @@ PipeFails(r) ==
     IF f0 = {} \/ r.invalid = 1 \/ ~HasBBox(r.tree) THEN f0
     ELSE LET alts == { PipeFails1([r EXCEPT !.tree = TreeWithChoice(r.tree, c)]) : c \in GeoChoices \ {NoCh} }
              ok == { a \in alts : a \subseteq ObservationOnly }
-         IN IF ok # {} THEN CHOOSE a \in ok : TRUE ELSE f0
+             \* no choice explains everything (something else is broken as well): judge with the choice that leaves the fewest
+             \* clauses open, so that a filter which takes the other admissible boundary is not blamed for a broken neighbour
+             size(a) == Cardinality(a \ ObservationOnly)
+             fewer == { a \in alts : size(a) < size(f0) /\ \A b \in alts : size(a) <= size(b) }
+         IN IF ok # {} THEN CHOOSE a \in ok : TRUE ELSE IF fewer # {} THEN CHOOSE a \in fewer : TRUE ELSE f0
 DebugFails(r) ==
     LET f0 == DebugFails1(r) IN
     IF f0 = {} \/ ~HasBBox(r.tree) THEN f0
